@@ -51,14 +51,22 @@ def proj(name):
     if name is None:
         return None
     if name not in _proj_cache:
-        _proj_cache[name] = {"robinson": ccrs.Robinson, "platecarree": ccrs.PlateCarree, "ortho": ccrs.Orthographic}[name]()
+        _proj_cache[name] = {"robinson": lambda: ccrs.Robinson(), "platecarree": lambda: ccrs.PlateCarree(),
+                             "robinson120": lambda: ccrs.Robinson(central_longitude=120),
+                             "platecarree-75": lambda: ccrs.PlateCarree(central_longitude=-75)}[name]()
     return _proj_cache[name]
 
 
 def gen_op(rng):
     """(op tuple, model gets)"""
     k = rng.choice(["attr"] * 8 + ["areas", "total", "xr", "gdf", "poly", "line", "ball", "kd", "chunk", "isel", "subset",
-                                  "lat", "dual", "copy", "repr", "query"])
+                                  "lat", "dual", "copy", "repr", "query", "data", "data"])
+    if k == "data":
+        # operations on a UxDataArray living on the grid: they read (and lazily derive) grid variables
+        what = rng.choice(["topo_face", "topo_edge", "integrate", "gradient", "difference_node", "difference_face", "data_isel"])
+        gets = {"topo_face": ["NPF"], "topo_edge": ["EN"], "integrate": ["NPF"], "gradient": ["EFD"], "difference_node": ["EN"],
+                "difference_face": ["EF"], "data_isel": ["FE"]}[what]
+        return ("data", what, rng.choice(["mean", "max", "sum", "median"])), gets
     if k == "attr":
         a = rng.choice(sorted(ATTR_OPS))
         return ("attr", a), ATTR_OPS[a]
@@ -74,7 +82,7 @@ def gen_op(rng):
         return ("xr", f), {"ugrid": ["@encode_ugrid"], "exodus": [], "scrip": ["AREAS"]}[f]
     if k in ("gdf", "poly", "line"):
         pe = rng.choice(["exclude", "split", "ignore"])
-        pj = rng.choice([None, None, None, "robinson", "platecarree"])
+        pj = rng.choice([None, None, None, "robinson", "platecarree", "robinson120", "platecarree-75"])
         if pe == "split" and pj is not None and k == "gdf":
             pj = None
         cache = rng.random() < 0.8
@@ -160,6 +168,24 @@ def apply_op(g, op):
         return g.copy()
     if k == "repr":
         return repr(g)
+    if k == "data":
+        import uxarray as ux
+        what = op[1]
+        if what in ("topo_face", "topo_edge", "difference_node"):
+            da = ux.UxDataArray(np.arange(2.0 * g.n_node).reshape(2, g.n_node) % 7, dims=["t", "n_node"], uxgrid=g, name="v")
+        else:
+            da = ux.UxDataArray(np.arange(2.0 * g.n_face).reshape(2, g.n_face) % 5, dims=["t", "n_face"], uxgrid=g, name="v")
+        if what == "topo_face":
+            return getattr(da, "topological_" + op[2])(destination="face")
+        if what == "topo_edge":
+            return getattr(da, "topological_" + op[2])(destination="edge")
+        if what == "integrate":
+            return da.integrate()
+        if what == "gradient":
+            return da.gradient()
+        if what in ("difference_node", "difference_face"):
+            return da.difference("edge")
+        return da.isel(n_face=[0])
     raise ValueError(op)
 
 
@@ -336,6 +362,7 @@ def run_history(ck, meshes, kinds, hist, refs, g0, known_set, stats):
     case = {"meshes": [{"nodes": m.nodes, "faces": m.faces} for m in meshes], "kinds": kinds,
             "history": [[t, list(op)] for t, op, _ in hist]}
     impl_sets = [[] for _ in grids]
+    raised = [False for _ in grids]
     for step, (t, op, gets) in enumerate(hist):
         g = grids[t]
         try:
@@ -343,6 +370,8 @@ def run_history(ck, meshes, kinds, hist, refs, g0, known_set, stats):
         except Exception as ex:
             r = ("raises", type(ex).__name__)
         stats["ops"][op[0]] = stats["ops"].get(op[0], 0) + 1
+        if r[0] == "raises":
+            raised[t] = True        # a raising operation may have derived only part of what the model assumes
         fresh = refs[t].result(op)
         info = {"op": op[0], "arg": str(op[1]) if len(op) > 1 else "", "step": step}
         if op[0] == "xr":
@@ -377,7 +406,7 @@ def run_history(ck, meshes, kinds, hist, refs, g0, known_set, stats):
             groups, unknown, partial = ds_groups(gg, extra[gi])
             if kinds[gi] == "xyz":
                 groups.discard("NXYZ")
-            impl_sets[gi].append(sorted(groups))
+            impl_sets[gi].append(None if raised[gi] else sorted(groups))
             if unknown or partial:
                 ck.fail("unexpected_variables", dict(case, failing_step=step), dict(info, names=",".join(unknown + partial)))
             for name in map(str, gg._ds.variables):
@@ -487,10 +516,11 @@ def main(ck):
                     ml.append([])
                     continue
                 gg = list(gets)
+                cur = impl_sets[gi][step] or []
                 if op[0] in ("gdf", "poly", "line"):
-                    gg = ["NPF"] if "NPF" in impl_sets[gi][step] else []
+                    gg = ["NPF"] if "NPF" in cur else []
                 if op == ("attr", "face_jacobian"):
-                    gg = ["AREAS"] if "AREAS" in impl_sets[gi][step] else ["NPF"]
+                    gg = ["AREAS"] if "AREAS" in cur else ["NPF"]
                 if kinds[gi] == "xyz":
                     gg = [x for x in gg]
                 ml.append(gg)
@@ -507,6 +537,8 @@ def main(ck):
                 nops = max(1, len(gets))
                 pos += nops
                 mset = sorted(set(mo[pos - 1]) - ({"NXYZ"} if kind == "xyz" else set())) if mo else []
+                if isets[step] is None:
+                    break                       # an operation raised on this grid: variable sets no longer comparable
                 iset = sorted(isets[step])
                 if mset != iset:
                     if os.environ.get("C08_DEBUG"):
@@ -538,7 +570,30 @@ def main(ck):
                     continue
                 pair_count += 1
                 run_history(ck, [pm], ["lonlat"], [(0, a, []), (0, b, []), (0, a, [])], [pref], g0, None, stats)
-    ck.cov["evaluations"] += pair_count
+    # ordered triples of element kinds for each tree type / system (a switch must not clobber another kind's tree)
+    import itertools
+    triple_count = 0
+    for tree, sy, me in (("ball", "spherical", "haversine"), ("ball", "cartesian", "minkowski"),
+                         ("kd", "cartesian", "minkowski"), ("kd", "spherical", "minkowski")):
+        for perm in itertools.permutations(["nodes", "face centers", "edge centers"]):
+            triple_count += 1
+            hist3 = [(0, (tree, c, sy, me, False), []) for c in perm] + [(0, (tree, perm[0], sy, me, False), []),
+                                                                      (0, (tree, perm[1], sy, me, False), [])]
+            run_history(ck, [pm], ["lonlat"], hist3, [pref], g0, None, stats)
+    # everything derived, then chunk(), then every observation again
+    obs = [("attr", a) for a in sorted(ATTR_OPS) if a not in ("sizes", "dims")] + \
+          [("areas", "triangular", 4, True), ("areas", "gaussian", 3, False), ("total", "triangular", 4), ("xr", "ugrid"), ("xr", "exodus"),
+           ("lat", 10.5), ("dual",), ("isel", "n_face", 0), ("isel", "n_edge", 1), ("isel", "n_node", 0), ("subset", "bbox", "nodes"),
+           ("poly", "exclude", None, False, False), ("line", "split", None, False, False), ("gdf", "exclude", None, "spatialpandas", False, False),
+           ("ball", "edge centers", "spherical", "haversine", False), ("kd", "face centers", "cartesian", "minkowski", False),
+           ("data", "topo_face", "mean"), ("data", "gradient", "mean"), ("data", "integrate", "mean"), ("data", "difference_node", "mean")]
+    derive_all = [(0, ("attr", a), []) for a in ("face_face_connectivity", "node_face_connectivity", "hole_edge_indices", "face_lon", "edge_lon",
+                                                  "face_areas", "edge_node_distances", "edge_face_distances", "edge_node_z", "bounds")]
+    chunk_count = 0
+    for o in (obs if ck.tier == "thorough" else rng.sample(obs, 14)):
+        chunk_count += 1
+        run_history(ck, [pm], ["lonlat"], derive_all + [(0, ("chunk", 2), []), (0, o, [])], [pref], g0, None, stats)
+    ck.cov["evaluations"] += pair_count + triple_count + chunk_count
     # the correspondence broke: look for a concrete observable difference harder (longer histories)
     if ck.corr_failures and not ck.violations:
         for extra in range(40):
@@ -578,7 +633,7 @@ def main(ck):
                       "cross_section, get_dual, copy, repr; after every op: variable set vs model, every stored variable vs its "
                       "fresh value, module constants vs import-time snapshot, result vs fresh result; non-trivial = length >= 2")
     ck.extra.update({"op_histogram": stats["ops"], "history_lengths": {str(k): v for k, v in sorted(lens.items())},
-                     "model_histories_compared": len(keep), "ordered_cache_call_pairs": pair_count, "jit_off_values_compared": jit_cases,
+                     "model_histories_compared": len(keep), "ordered_cache_call_pairs": pair_count, "tree_kind_triples": triple_count, "post_chunk_observations": chunk_count, "jit_off_values_compared": jit_cases,
                      "translator": "harness/translators/c08_caches.py -> Gen/C08_caches.v (compared/stored key sets of 5 caches)"})
     ck.trusted += ["translator c08_caches.py (fail-closed)", "dependency table c08_deps (hand-written from the populators; checked "
                    "against the variable sets observed after every operation)",
